@@ -260,6 +260,17 @@ impl Walrus {
                 if s.ends_with("_index.db") {
                     continue;
                 }
+                // WAL files are named by their creation time in milliseconds. Anything else
+                // (a leftover `*_index.db.tmp` of an interrupted or concurrent index/marker
+                // persist, a stray file) is not a WAL file and must not be scanned as one.
+                let is_wal_name = path
+                    .file_name()
+                    .and_then(|n| n.to_str())
+                    .map(|n| !n.is_empty() && n.chars().all(|c| c.is_ascii_digit()))
+                    .unwrap_or(false);
+                if !is_wal_name {
+                    continue;
+                }
                 files.push(s.to_string());
             }
         }
@@ -290,7 +301,9 @@ impl Walrus {
             // towards the synthetic block ids if a written block follows them in the same file
             // (then they were handed out by the allocator); trailing ones were never allocated.
             let mut skipped_units: usize = 0;
-            while block_offset + DEFAULT_BLOCK_SIZE <= MAX_FILE_SIZE {
+            // never read past the end of a file that is shorter than a full WAL file
+            let file_len = mmap.len() as u64;
+            while block_offset + DEFAULT_BLOCK_SIZE <= MAX_FILE_SIZE.min(file_len) {
                 // A unit whose first bytes are zero holds no entries. It is not necessarily the
                 // end of the file's blocks: a block that was handed out but never written (its
                 // first append failed or was rolled back) is all zero too, and blocks allocated
